@@ -544,7 +544,7 @@ class IntegralGenerator:
             tables += table
             # Define B_rhs = fw * arg_factors
             insert_rank = block_rank
-            if self.ir.part == TensorPart.diagonal:
+            if self.ir.part == TensorPart.diagonal and block_rank == 2:
                 insert_rank = 1
                 B_indices = [B_indices[0]]
             B_rhs = L.float_product([fw] + arg_factors)
